@@ -4,18 +4,25 @@
 set -u
 OUT=$1; SID=$2; PROP=$3; TIER=${4:-quick}
 cd /verif
-test -z "$(git -C /repo status --porcelain)" || { echo "/repo not clean"; exit 3; }
+# SEED_WT=<scratch worktree of /repo at the same HEAD>: evaluate there instead (used while long runs are reading /repo).
+R=${SEED_WT:-/repo}
+if [ "$R" != /repo ]; then
+  git -C $R checkout -- . ; test "$(git -C $R rev-parse HEAD)" = "$(git -C /repo rev-parse HEAD)" || { echo "worktree HEAD differs"; exit 3; }
+  export SLEAP_NN_REPO=$R SYMX_OUT_DIR=$(mktemp -d /tmp/seedout.XXXX)
+fi
+test -z "$(git -C $R status --porcelain)" || { echo "$R not clean"; exit 3; }
 D=/verif/seeded/$SID; mkdir -p $D
 cp $OUT/patch.diff $D/patch.diff; cp $OUT/demo.py $D/demo.py 2>/dev/null; cp $OUT/meta.json $D/agent_meta.json 2>/dev/null
 echo "== demo on original"; (cd /tmp && PYTHONPATH=/repo timeout 600 /venv/bin/python $D/demo.py > $D/demo_orig.log 2>&1; echo "exit=$?" | tee -a $D/demo_orig.log); tail -2 $D/demo_orig.log
-git -C /repo apply $D/patch.diff || { echo "patch does not apply"; exit 3; }
-echo "== demo on changed"; (cd /tmp && PYTHONPATH=/repo timeout 600 /venv/bin/python $D/demo.py > $D/demo_changed.log 2>&1; echo "exit=$?" | tee -a $D/demo_changed.log); tail -2 $D/demo_changed.log
-echo "== baseline tests on changed"; (cd /repo && timeout 1800 /venv/bin/python -m pytest -q -p no:cacheprovider --timeout=900 --continue-on-collection-errors 2>&1 | tail -1 > $D/tests_changed.log); cat $D/tests_changed.log
+git -C $R apply $D/patch.diff || { echo "patch does not apply"; exit 3; }
+echo "== demo on changed"; (cd /tmp && PYTHONPATH=$R timeout 600 /venv/bin/python $D/demo.py > $D/demo_changed.log 2>&1; echo "exit=$?" | tee -a $D/demo_changed.log); tail -2 $D/demo_changed.log
+echo "== baseline tests on changed"; (cd $R && timeout 1800 /venv/bin/python -m pytest -q -p no:cacheprovider --timeout=900 --continue-on-collection-errors 2>&1 | tail -1 > $D/tests_changed.log); cat $D/tests_changed.log
 echo "== check $PROP $TIER on changed"; ./check $PROP $TIER > $D/check_changed.log 2>&1; echo "check exit=$?" | tee -a $D/check_changed.log; grep -E "^VIOLATION|signature=|INCONCLUSIVE|KNOWN" $D/check_changed.log | head -8
-git -C /repo checkout -- . ; git -C /repo status --porcelain
-python3 - "$D" "$SID" "$PROP" "$TIER" <<'PY'
+git -C $R checkout -- . ; git -C $R status --porcelain
+[ "$R" != /repo ] && rm -rf "$SYMX_OUT_DIR"
+python3 - "$D" "$SID" "$PROP" "$TIER" "$R" <<'PY'
 import json,sys,os,re
-D,SID,PROP,TIER=sys.argv[1:5]
+D,SID,PROP,TIER,R=sys.argv[1:6]
 am=json.load(open(f"{D}/agent_meta.json")) if os.path.exists(f"{D}/agent_meta.json") else {}
 log=open(f"{D}/check_changed.log").read()
 viol=re.findall(r"signature=(\S+)",log)
@@ -23,7 +30,7 @@ ex=re.search(r"check exit=(\d+)",log)
 meta={"seed_id":SID,"property":PROP,"summary":am.get("summary"),"needs_to_manifest":am.get("needs"),
  "confirmed":{"demo_on_original":open(f"{D}/demo_orig.log").read().strip().splitlines()[-1],"demo_on_changed":open(f"{D}/demo_changed.log").read().strip().splitlines()[-1],
               "baseline_suite_on_changed":open(f"{D}/tests_changed.log").read().strip()},
- "ran":f"git -C /repo apply patch.diff; ./check {PROP} {TIER}; git -C /repo checkout -- .",
+ "ran":(f"git -C /repo apply patch.diff; ./check {PROP} {TIER}; git -C /repo checkout -- ." if R=="/repo" else f"git -C <scratch worktree of /repo HEAD> apply patch.diff; SLEAP_NN_REPO=<worktree> ./check {PROP} {TIER}"),
  "check_exit":int(ex.group(1)) if ex else None,"detected":bool(re.search(r"^VIOLATION",log,re.M)),"signatures":sorted(set(viol))}
 json.dump(meta,open(f"{D}/meta.json","w"),indent=1); print(json.dumps(meta)[:600])
 PY
